@@ -303,5 +303,20 @@ def decWfItems2 : Items → Bool
     (w == 8 || w == 16 || w == 32 || w == 64) && eb == w / 8 && decWfItems2 r
   | .cons _ _ => false
 
+/-- bit-fields of the extended serializer class: those of `bfOkJ`, and size / count fields of at most 32 bits -/
+def bfOkE : BitField → Bool
+  | .size _ w _ => decide (0 < w) && decide (w ≤ 32)
+  | .count _ w => decide (0 < w) && decide (w ≤ 32)
+  | f => bfOkJ f
+
+/-- packets and structs without parent: bit-field groups of at most 32 bits (size and count fields among them), arrays of
+    scalars of a whole number of octets, payloads -/
+def encWfItems : Items → Bool
+  | .nil => true
+  | .cons (.chunk fs) r => fs.all bfOkE && decide (chunkBits fs ≤ 32) && encWfItems r
+  | .cons (.payload _) r => encWfItems r
+  | .cons (.array _ (.scalar w) (.static _) _ none) r => decide (w % 8 = 0) && decide (0 < w) && decide (w ≤ 64) && encWfItems r
+  | .cons _ _ => false
+
 end Java
 end Pdlv
